@@ -285,6 +285,18 @@ func genStream(g *rand.Rand, c *CallSpec, b Bias, classU bool) {
 	if g.IntN(8) == 0 {
 		c.CProg = dupClose(c.CProg)
 	}
+	if c.Kind == KSStream && g.IntN(2) == 0 {
+		c.Stub = true
+		if g.IntN(3) == 0 {
+			// a handler (or what an auth / rate-limit interceptor does) that finishes the
+			// call without reading the request: its status, and whatever metadata it
+			// set, may be on their way before the caller's request has gone out
+			c.HProg = nil
+			c.HSendN = 0
+			c.CProg = []Op{{K: 's'}, {K: 'c'}, {K: 'R'}}
+			c.Early, c.EarlyK = true, 0
+		}
+	}
 }
 
 // dupClose repeats the first half-close of a client program right after itself.
@@ -926,6 +938,14 @@ func checkMetadata(run *MixRun) {
 				e.Violate(prop, "response-trailer", site, "call %d (unary): trailers on the wire differ: %s", id, d)
 			}
 			e.Note("md.unary.response")
+			continue
+		}
+		if r.CStubDropped {
+			// the generated code returned (nil, err): whatever the handler set cannot be read
+			if wh, wt := joinOps(c.HProg, "HS"), joinOps(c.HProg, "T"); len(wh)+len(wt) > 0 && r.HReturned {
+				e.Violate(prop, "metadata-unreachable", "sstream.generated-stub", "call %d: the handler set %d header and %d trailer keys and finished (%v) before the caller's request went out; SendMsg / CloseSend returned an error, on which the generated code for a server-streaming method returns (nil, err): the caller has no stream to ask for Header() or Trailer()", id, len(wh), len(wt), r.HRetErr)
+			}
+			e.Note("md.stub-dropped")
 			continue
 		}
 		if r.CHeaderSet {
